@@ -2,6 +2,7 @@ import Goflow.Format.Text
 import Goflow.Producer.Packet
 import Goflow.Generated.FlowMessage
 import Goflow.Generated.Renderers
+import Goflow.Spec.Json
 /-!
   config_impl.go (mapConfig / mapFormat / finalize) and messages.go (FormatMessageReflectCustom,
   mapUnknown, Key, MarshalBinary) as a model: the uncompiled configuration as data (`RawConfig`,
@@ -245,8 +246,8 @@ def applyRenderer (m : FlowMsg) (fieldName : String) (r : String) (v : FV) : Ren
   else if r = "MacRenderer" then (match v with | .num n 64 => .text (macText (n % 2 ^ 48)) | v => nilRenderer v)
   else if r = "EtypeRenderer" then (match v with | .num n _ => .text (etypeNameOf (n % 2 ^ 32)) | _ => .text (str "unknown"))
   else if r = "ProtoRenderer" then (match v with | .num n _ => .text (protoNameOf (n % 2 ^ 32)) | _ => .text (str "unknown"))
-  else if r = "DateTimeRenderer" then (match v with | .num n _ => .text (rfc3339 n 0) | v => nilRenderer v)
-  else if r = "DateTimeNanoRenderer" then (match v with | .num n 64 => .text (rfc3339 (n / 1000000000) (n % 1000000000)) | v => nilRenderer v)
+  else if r = "DateTimeRenderer" then (match v with | .num n 64 => .text (rfc3339 (goTimeSec (asInt64 n)) 0) | .num n _ => .text (rfc3339 n 0) | v => nilRenderer v)
+  else if r = "DateTimeNanoRenderer" then (match v with | .num n 64 => .text (rfc3339 ((asInt64 n).fdiv 1000000000) ((asInt64 n).emod 1000000000).toNat) | v => nilRenderer v)
   else if r = "NetworkRenderer" then
     let addr := if fieldName = "SrcNet" then m.srcAddr else if fieldName = "DstNet" then m.dstAddr else []
     (match v with | .num n 32 => .text (prefixText addr n) | _ => .text (str "unknown"))
@@ -256,7 +257,7 @@ def applyRenderer (m : FlowMsg) (fieldName : String) (r : String) (v : FV) : Ren
   else nilRenderer v
 
 /-- FormatMessageReflectCustom(ext, quotes, sep, sign, null): the list of `name sign value` items -/
-def formatItems (f : Fmt) (m : FlowMsg) (quotes sign : Bytes) : List Bytes :=
+def formatItems (f : Fmt) (m : FlowMsg) (json : Bool) (quotes sign : Bytes) : List Bytes :=
   let unk := mapUnknown f m.unk
   f.fields.filterMap fun s =>
     let finalName : Bytes := match f.rename.lookup s with
@@ -272,14 +273,14 @@ def formatItems (f : Fmt) (m : FlowMsg) (quotes sign : Bytes) : List Bytes :=
     let value? : Option FV := match v0 with
       | .invalid => (match unk.lookup s with
           | some u => some u
-          | none => if okRenderer then some .invalid else none)
+          | none => if okRenderer ∧ (f.reMap.lookup s).isNone then some .invalid else none)   -- virtual columns only
       | v => some v
     match value? with
     | none => none
     | some v =>
       let isSlice := (f.isSlice.lookup fieldName).getD false
       let quoteIf (r : Rendered) : Option Bytes := match r with
-        | .text b => some (quotes ++ b ++ quotes)
+        | .text b => some (if json then jsonQuote b else quotes ++ b ++ quotes)
         | .bare b => some b
         | .nil => none
       if isSlice then
@@ -297,10 +298,10 @@ def formatItems (f : Fmt) (m : FlowMsg) (quotes sign : Bytes) : List Bytes :=
         | some b => some (quotes ++ finalName ++ quotes ++ sign ++ b)
 
 def formatJSON (f : Fmt) (m : FlowMsg) : Bytes :=
-  str "{" ++ ((formatItems f m (str "\"") (str ":")).intersperse (str ",")).flatten ++ str "}"
+  str "{" ++ ((formatItems f m true (str "\"") (str ":")).intersperse (str ",")).flatten ++ str "}"
 
 def formatText (f : Fmt) (m : FlowMsg) : Bytes :=
-  ((formatItems f m [] (str "=")).intersperse (str " ")).flatten
+  ((formatItems f m false [] (str "=")).intersperse (str " ")).flatten
 
 /-! ### key: FNV-1 (32 bit) over the %v text of the key fields -/
 
@@ -340,5 +341,29 @@ def marshal (m : FlowMsg) : Bytes :=
 def marshalBinary (m : FlowMsg) : Bytes :=
   let body := marshal m
   appendVarint body.length ++ body
+
+/-- the reader's side (protodelim.UnmarshalFrom in a loop): cut a stream into frames -/
+def splitFrames : Nat → Bytes → Option (List Bytes)
+  | 0, _ => none
+  | _, [] => some []
+  | fuel + 1, b =>
+    match consumeVarint 10 b with
+    | none => none
+    | some (n, r) =>
+      if r.length < n then none else
+      match splitFrames fuel (r.drop n) with
+      | some fs => some (r.take n :: fs)
+      | none => none
+
+/-- the four outputs of one message as the harness prints them -/
+def fmtLines (f : Fmt) (m : FlowMsg) : List String :=
+  let js := formatJSON f m
+  let bin := marshalBinary m
+  let two := bin ++ bin
+  let split := splitFrames (two.length + 1) two == some [marshal m, marshal m]
+  ["json " ++ hexOf js ++ " valid=" ++ (if Goflow.Spec.Json.valid js then "1" else "0"),
+   "text " ++ hexOf (formatText f m),
+   "bin " ++ hexOf bin ++ " split=" ++ (if split then "ok" else "bad"),
+   "key " ++ hexOf (key f m)]
 
 end Goflow.Format
